@@ -283,7 +283,9 @@ pub fn sparse_term(exps: &[usize]) -> SparseTerm {
 pub fn mv_poly<F: PrimeField>(spec: &PolySpec, nv: usize, rng: &mut ChaCha20Rng) -> MvPoly<F> {
     let deg = spec.deg.max(0) as usize;
     match spec.cls.as_str() {
-        "zero" => MvPoly::<F>::zero(),
+        // the zero polynomial in `nv` variables (`P::zero()` would have 0 variables)
+        "zero" => MvPoly::from_coefficients_vec(nv, vec![]),
+        "zero0" => MvPoly::<F>::zero(),
         "const" => MvPoly::from_coefficients_vec(nv, vec![(nonzero(rng), SparseTerm::new(vec![]))]),
         "uni" => {
             // only monomials in the first variable
